@@ -261,6 +261,35 @@ example : ∃ (C : Crypto) (cc : ClientCfg) (sc : ServerCfg) (user : String), Ae
   ⟨plainCrypto, ⟨[1], [[2]], [], [], false⟩, ⟨[], [2], [⟨"u", [1]⟩], [], [], false, false⟩, "u",
     plainCrypto_ok, plainCrypto_eih, rfl, Or.inr ⟨rfl, rfl, rfl, by first | rfl | simp [lookupUser, plainCrypto, List.find?]⟩⟩
 
+
+/-- **request_observed_relayed** (identity-header depth 1, 2, 3, … — with `request_observed` for depth 0
+this covers every iPSK chain the property quantifies over): the client is configured with the chain
+`front ++ [sc.ipsk]` (`front`: the iPSKs of the SIP023 relays, any number). Every relay decrypts the
+first identity header with its iPSK-derived key, finds the hash of the next hop's key, strips the
+header and forwards (`relayAll`); what reaches the server — the holder of the last iPSK — is byte for
+byte the request of the same client configured with `[sc.ipsk]` alone (`relay_chain`), so
+`HandleStream` returns `(T up to 4-in-6 unmapping, P.take room, owner)` as in `request_observed`.
+A client that puts the wrong key hash into any header (seeded change C01-4) makes some relay refuse. -/
+theorem request_observed_relayed (C : Crypto) (hC : AeadOK C) (hE : EihOK C) (cc : ClientCfg) (sc : ServerCfg) (user : String)
+    (front : List Bytes) (hip : cc.ipsks = front ++ [sc.ipsk])
+    (hp : Paired C { cc with ipsks := [sc.ipsk] } sc user) (ch : DialChoice) (hsalt : ch.salt.length = cc.psk.length)
+    (t : Addr) (ht : t.Valid = true) (P : Bytes) (hr : RndOk P.length ch.rnd = true)
+    (now : Int) (hts : ClockOK ch.ts now) (later : Bytes) :
+    ∃ req tl forwarded, (dial C cc ch t P).segs = req :: tl ∧
+      relayAll C cc.reqPrefix.length ch.salt.length cc.ipsks (req ++ later) = some forwarded ∧
+      ∀ segs, firstRead sc.allowSeg
+          (sc.reqPrefix.length + (if sc.psk.length = 0 then sc.ipsk.length else sc.psk.length) +
+            (if sc.psk.length = 0 then IdentityHeaderLength else 0) + TCPRequestFixedLengthHeaderLength + tagSize) segs =
+        .ok (forwarded.take (sc.reqPrefix.length + (if sc.psk.length = 0 then sc.ipsk.length else sc.psk.length) +
+                (if sc.psk.length = 0 then IdentityHeaderLength else 0) + TCPRequestFixedLengthHeaderLength + tagSize))
+            (forwarded.drop (sc.reqPrefix.length + (if sc.psk.length = 0 then sc.ipsk.length else sc.psk.length) +
+                (if sc.psk.length = 0 then IdentityHeaderLength else 0) + TCPRequestFixedLengthHeaderLength + tagSize)) →
+        handle C sc now segs =
+          .request ⟨t.norm, P.take (roomForPayload t), user⟩ ⟨C.kdf cc.psk ch.salt, 2, [], later⟩ ch.salt cc.psk := by
+  obtain ⟨req, req1, tl, h1, h2, h3⟩ := relay_chain_request hE cc front sc.ipsk hip ch t P later
+  refine ⟨req, tl, req1 ++ later, h1, h3, fun segs hfr => ?_⟩
+  exact request_observed C hC hE { cc with ipsks := [sc.ipsk] } sc user hp ch hsalt t ht P hr now hts req1 later tl h2 segs hfr
+
 /-- **p_first**: `P` arrives as the first bytes of the client→server stream: `P.take room` inside
 the request (`request_observed`), and the server's reads — any schedule — on the reader that
 `HandleStream` returned deliver `P.drop room` followed by everything the client writes later. -/
@@ -413,6 +442,67 @@ theorem writeto_into_any_sink (C : Crypto) (hC : AeadOK C) (r : Reader) (cs : Li
       · exact ⟨rest, by simp only [pending, List.flatten_cons, ha, h2, List.append_assoc]⟩
       · simp only [pending, List.flatten_cons, ha, h3 h]
 
+
+/-- **destination_write_failure**: a copy (`WriteTo`, or the tunnel copy, whose destination conn fails
+when its transport refuses a write: `accept = 0` together with the error) into a destination that
+fails at any call. The error surfaces; what the destination took is a prefix of the pending stream; the
+source conn stays in sync: the stream is exactly (taken) ++ (lost: at most the rest of the ONE chunk
+that was in flight; if the failure hit the flush of the left-over, nothing — the left-over stays
+buffered) ++ (still pending, to be delivered by later calls) — nothing is delivered twice, nothing
+beyond the chunk in flight is lost, and the bytes counted as copied are bytes the destination took. -/
+theorem destination_write_failure (C : Crypto) (hC : AeadOK C) (r : Reader) (cs : List Bytes) (hs : Sync C r cs)
+    (hleft : r.left.length ≤ streamMaxPayloadSize) (sink : List SinkRes) (hk : SinkOK sink) :
+    ∃ pieces e cs' lost, (r.writeToSink C sink).1 = .copied pieces e ∧ Sync C (r.writeToSink C sink).2.1 cs' ∧
+      pending r cs = pieces.flatten ++ lost ++ pending (r.writeToSink C sink).2.1 cs' ∧
+      lost.length ≤ streamMaxPayloadSize ∧ (e = none → lost = [] ∧ pending (r.writeToSink C sink).2.1 cs' = []) ∧
+      (e = none ∨ e = some .sinkErr) := by
+  have hf : writeToFlushesLeftover = true := by decide
+  have hfuel : cs.length < r.wire.length + 1 := by
+    rw [hs.wire]; have := encodeChunks_length_ge hC r.key r.nonce cs; omega
+  by_cases hl : r.left.length = 0
+  · have hl' : r.left = [] := List.length_eq_zero_iff.mp hl
+    obtain ⟨pieces, e, cs', lost, h1, h2, h2l, h3, h4, h5, h6⟩ := copyLoopSink_sync hC cs _ r sink [] hs hk hfuel
+    have e0 : r.writeToSink C sink = copyLoopSink C (r.wire.length + 1) r sink [] := by
+      simp [Reader.writeToSink, hf, hl]
+    rw [e0]
+    refine ⟨pieces, e, cs', lost, ?_⟩
+    refine And.intro (by simpa using h1) (And.intro h2 (And.intro ?_ (And.intro h4 (And.intro (fun h => ?_) h6))))
+    · simp only [pending, h2l, hl', List.nil_append]; exact h3
+    · obtain ⟨a, b⟩ := h5 h; exact ⟨a, by simp [pending, h2l, hl', b]⟩
+  · obtain ⟨⟨rest0, hpre⟩, hfull, hk'⟩ := sinkWrite_ok hk r.left hleft
+    by_cases he : (sinkWrite sink r.left).2.1 = true
+    · -- the flush failed: what the destination did not take stays buffered
+      have e0 : r.writeToSink C sink = (.copied [(sinkWrite sink r.left).1] (some .sinkErr),
+          { r with left := r.left.drop (sinkWrite sink r.left).1.length }, (sinkWrite sink r.left).2.2) := by
+        simp [Reader.writeToSink, hf, hl, he]
+      rw [e0]
+      generalize (sinkWrite sink r.left).1 = a at hpre
+      have hd : r.left.drop a.length = rest0 := by rw [hpre, List.drop_left]
+      refine ⟨[a], some .sinkErr, cs, [], ?_⟩
+      refine And.intro rfl (And.intro ⟨hs.wire, hs.valid⟩ (And.intro ?_ (And.intro (by simp) (And.intro (fun h => nomatch h) (Or.inr rfl)))))
+      simp only [pending, List.flatten_cons, List.flatten_nil, List.append_nil, hd]
+      rw [hpre, List.append_assoc]
+    · have he' : (sinkWrite sink r.left).2.1 = false := by simpa using he
+      have ha := hfull he'
+      have hs' : Sync C { r with left := r.left.drop (sinkWrite sink r.left).1.length } cs := ⟨hs.wire, hs.valid⟩
+      obtain ⟨pieces, e, cs', lost, h1, h2, h2l, h3, h4, h5, h6⟩ :=
+        copyLoopSink_sync hC cs _ _ (sinkWrite sink r.left).2.2 [(sinkWrite sink r.left).1] hs' hk' hfuel
+      have e0 : r.writeToSink C sink = copyLoopSink C (r.wire.length + 1)
+          { r with left := r.left.drop (sinkWrite sink r.left).1.length } (sinkWrite sink r.left).2.2 [(sinkWrite sink r.left).1] := by
+        simp [Reader.writeToSink, hf, hl, he']
+      have hdrop : r.left.drop (sinkWrite sink r.left).1.length = [] := by rw [ha]; simp
+      rw [e0]
+      have h2l' : (copyLoopSink C (r.wire.length + 1) { r with left := r.left.drop (sinkWrite sink r.left).1.length }
+          (sinkWrite sink r.left).2.2 [(sinkWrite sink r.left).1]).2.1.left = [] := by rw [h2l]; exact hdrop
+      refine ⟨(sinkWrite sink r.left).1 :: pieces, e, cs', lost, ?_⟩
+      refine And.intro ?_ (And.intro h2 (And.intro ?_ (And.intro h4 (And.intro (fun h => ?_) h6))))
+      · rw [h1]; simp
+      · simp only [pending, h2l', List.nil_append, List.flatten_cons]
+        rw [h3]
+        conv => lhs; rw [← ha]
+        simp only [List.append_assoc]
+      · obtain ⟨x, y⟩ := h5 h; exact ⟨x, by simp [pending, h2l', y]⟩
+
 /-- the splitting loops of `Write` / `ReadFrom` lose nothing and respect the chunk limit -/
 theorem writer_chunks_valid (calls : List WCall) :
     ValidChunks (calls.flatMap WCall.chunks) ∧
@@ -441,3 +531,5 @@ end SSV.C01
 #print axioms SSV.C01.midchunk_timeout_is_permanent
 #print axioms SSV.C01.response_roundtrip_readfrom
 #print axioms SSV.C01.writeto_into_any_sink
+#print axioms SSV.C01.request_observed_relayed
+#print axioms SSV.C01.destination_write_failure
